@@ -30,7 +30,17 @@ from exabgp.configuration.schema import (
     ActionKey,
 )
 
+from exabgp.configuration.validator import LegacyParserValidator
+
 from exabgp.configuration.static.parser import prefix
+from exabgp.configuration.static.parser import aigp
+from exabgp.configuration.static.parser import atomic_aggregate
+from exabgp.configuration.static.parser import attribute
+from exabgp.configuration.static.parser import cluster_list
+from exabgp.configuration.static.parser import originator_id
+from exabgp.configuration.static.parser import name as named
+from exabgp.configuration.static.parser import watchdog
+from exabgp.configuration.static.parser import withdraw
 
 # Import and re-export _build_route for backward compatibility
 from exabgp.configuration.announce.route_builder import _build_route  # noqa: F401
@@ -86,6 +96,7 @@ class AnnounceIP(ParseAnnounce):
                 target=ActionTarget.ATTRIBUTE,
                 operation=ActionOperation.ADD,
                 key=ActionKey.NAME,
+                validator=LegacyParserValidator(parser_func=atomic_aggregate, name='atomic-aggregate'),
             ),
             'aggregator': Leaf(
                 type=ValueType.AGGREGATOR,
@@ -100,6 +111,7 @@ class AnnounceIP(ParseAnnounce):
                 target=ActionTarget.ATTRIBUTE,
                 operation=ActionOperation.ADD,
                 key=ActionKey.NAME,
+                validator=LegacyParserValidator(parser_func=originator_id, name='originator-id'),
             ),
             'cluster-list': LeafList(
                 type=ValueType.IP_ADDRESS,
@@ -107,6 +119,7 @@ class AnnounceIP(ParseAnnounce):
                 target=ActionTarget.ATTRIBUTE,
                 operation=ActionOperation.ADD,
                 key=ActionKey.NAME,
+                validator=LegacyParserValidator(parser_func=cluster_list, name='cluster-list'),
             ),
             'community': LeafList(
                 type=ValueType.COMMUNITY,
@@ -135,6 +148,7 @@ class AnnounceIP(ParseAnnounce):
                 target=ActionTarget.ATTRIBUTE,
                 operation=ActionOperation.ADD,
                 key=ActionKey.NAME,
+                validator=LegacyParserValidator(parser_func=aigp, name='aigp'),
             ),
             'attribute': Leaf(
                 type=ValueType.HEX_STRING,
@@ -142,6 +156,7 @@ class AnnounceIP(ParseAnnounce):
                 target=ActionTarget.ATTRIBUTE,
                 operation=ActionOperation.ADD,
                 key=ActionKey.NAME,
+                validator=LegacyParserValidator(parser_func=attribute, name='attribute'),
             ),
             'name': Leaf(
                 type=ValueType.STRING,
@@ -149,6 +164,7 @@ class AnnounceIP(ParseAnnounce):
                 target=ActionTarget.ATTRIBUTE,
                 operation=ActionOperation.ADD,
                 key=ActionKey.NAME,
+                validator=LegacyParserValidator(parser_func=named, name='name'),
             ),
             'split': Leaf(
                 type=ValueType.INTEGER,
@@ -163,6 +179,7 @@ class AnnounceIP(ParseAnnounce):
                 target=ActionTarget.ATTRIBUTE,
                 operation=ActionOperation.ADD,
                 key=ActionKey.NAME,
+                validator=LegacyParserValidator(parser_func=watchdog, name='watchdog'),
             ),
             'withdraw': Leaf(
                 type=ValueType.BOOLEAN,
@@ -170,6 +187,7 @@ class AnnounceIP(ParseAnnounce):
                 target=ActionTarget.ATTRIBUTE,
                 operation=ActionOperation.ADD,
                 key=ActionKey.NAME,
+                validator=LegacyParserValidator(parser_func=withdraw, name='withdraw'),
             ),
         },
     )
